@@ -194,7 +194,13 @@ class whiledo(ifthenelse):
         a = self.parse(tex)
         tok: List[Token] = []
         while True:
-            expanded = tex.expandTokens(a['test'], parentNode=self.parentNode)
+            # As in \ifthenelse, \( and \) group the test instead of
+            # entering math mode
+            BeginMath.disableMath = EndMath.disableMath = True
+            try:
+                expanded = tex.expandTokens(a['test'], parentNode=self.parentNode)
+            finally:
+                BeginMath.disableMath = EndMath.disableMath = False
             if isinstance(expanded, TeXFragment):
                 test_result = self.evaluate(tex, expanded)
             else:
